@@ -468,6 +468,33 @@ func c20Run(e *core.Env) {
 			}
 		}
 	}
+	// high-precision block: mode relations of Round and of the pairs at p in {19,...,39}
+	seenP := map[uint32]bool{}
+	for _, cc := range sp.HiCtxs {
+		if seenP[cc.C.Precision] {
+			continue // the eight modes are the inner dimension of c20Modes
+		}
+		seenP[cc.C.Precision] = true
+		for iu := range sp.HiUs {
+			if !e.Mine(int64(iu)) {
+				continue
+			}
+			cls, msg := c20Modes("Round", sp.HiUs[iu], nil, 0, cc)
+			e.TransOnly(8)
+			report("modes", "Round", sp.HiUs[iu], nil, 0, cc, cls, msg)
+		}
+		for ip := range sp.HiPairs {
+			if !e.Mine(int64(ip)) {
+				continue
+			}
+			pr := sp.HiPairs[ip]
+			for _, op := range c20Binary {
+				cls, msg := c20Modes(op, pr[0], &pr[1], 0, cc)
+				e.TransOnly(8)
+				report("modes", op, pr[0], &pr[1], 0, cc, cls, msg)
+			}
+		}
+	}
 	// Round is monotone: adjacent pairs of the value-sorted alphabet (worker 0 .. n by context)
 	sorted := append([]Operand{}, sp.Us...)
 	sort.SliceStable(sorted, func(i, j int) bool { return ref.Cmp(sorted[i].V, sorted[j].V) < 0 })
